@@ -34,10 +34,10 @@ CFG = dict(
     imports=["From Verif.Common Require Import Packet PolicyRef Ipt.", "From Verif.C08 Require Import Model.",
              "From Verif.C09 Require Import Model Spec.", "Open Scope string_scope."],
     checker="check_case",
-    n=dict(quick=90, thorough=1200),
+    n=dict(quick=75, thorough=1200),
     shard=15,
     deps=["Common", "C08"],
-    rule="2 corpus cases (minimal profile-pass witness, iptables and nftables) + generated endpoints: 0-4 tiers (default action Deny / Pass / unset) x 0-12 policies per tier (GNP, NP, KNP and the three staged "
+    rule="2 corpus cases (minimal profile-pass witness, iptables and nftables) + 14% stride-conflict layouts (one group of 11-17 enforced policies with staged ones interleaved; a chosen packet first matches allow/pass in enforced policy 6-10 or 11-15 and a conflicting rule in enforced policy 11 or 16, nothing else matches; later tier / profile deciding the other way) + generated endpoints: 0-4 tiers (default action Deny / Pass / unset) x 0-12 policies per tier (GNP, NP, KNP and the three staged "
          "kinds; 22% of cases have tiers of 5-12 policies so that group chains cross the 5-policy return stride once or twice), policies "
          "split into groups at random (including all-staged, single-policy and empty groups), 0-3 rules per policy and direction, "
          "0-3 profiles (30% of cases allow Pass rules inside profiles), workload endpoints (admin up/down, VXLAN/IPIP from workloads allowed or not), host endpoints (failsafe jump) "
